@@ -205,9 +205,23 @@ func c06(c *Ctx, mc MsgCase, H int) {
 						step("op", "encode", "msg", mn, "buf", bn))
 					steps2 = append(steps2, len(st2)-1)
 				}
+				// ... and with every text lengthened to 700 bytes (bodies made of length-prefixed text)
+				bigT := inflateText(v, 700)
+				st3 := make([]map[string]any, len(st2))
+				for i, sp := range st2 {
+					cp := map[string]any{}
+					for k, x := range sp {
+						cp[k] = x
+					}
+					if cp["op"] == "newmsg" {
+						cp["value"] = bigT
+					}
+					st3[i] = cp
+				}
 				return &Violation{Detail: "Encode depends on how much of the buffer was already consumed: " + note,
 					Replay: &ReplayReq{Steps: st, Judge: Judge{Kind: "same_as_step", Step: steps[0], Step2: 2, ExpectHex: "6162", Steps: steps},
-						Alt: &ReplayReq{Steps: st2, Judge: Judge{Kind: "same_as_step", Step: steps2[0], Step2: 2, ExpectHex: "6162", Steps: steps2}}}}
+						Alt: &ReplayReq{Steps: st2, Judge: Judge{Kind: "same_as_step", Step: steps2[0], Step2: 2, ExpectHex: "6162", Steps: steps2},
+							Alt: &ReplayReq{Steps: st3, Judge: Judge{Kind: "same_as_step", Step: steps2[0], Step2: 2, ExpectHex: "6162", Steps: steps2}}}}}
 			})
 			break // one candidate per path is enough
 		}
